@@ -36,17 +36,18 @@ func init() {
 // Op is one step of an abstract program. Selectors (H, Key) are resolved modulo what exists
 // at run time, so every sub-list of a program is again a valid program.
 type Op struct {
-	K     string `json:"k"`               // begin set del get getr keys commit rollback gc reopen burst delburst
-	H     int    `json:"h,omitempty"`     // actor selector: 0 = autocommit, else the (H-1 mod n)-th open transaction
-	Last  bool   `json:"last,omitempty"`  // address the most recently begun transaction that is still open
-	Late  bool   `json:"late,omitempty"`  // C13: address an ended transaction instead of an open one
-	Ghost bool   `json:"ghost,omitempty"` // C13: address a transaction id that never existed
-	Key   int    `json:"key,omitempty"`   // key selector (mod len(keys)); -1 = the empty key; -2 = a never-written key
-	Len   int    `json:"len,omitempty"`   // content length of a write
-	Lvl   int    `json:"lvl,omitempty"`   // begin: 0..3 = level, 4 = Begin() without argument (default level)
-	Via   string `json:"via,omitempty"`   // write path: "" = Set, "reader" = SetReader, "create" = Create+Write*+Close
-	Split []int  `json:"split,omitempty"` // reader: max bytes per Read; create: sizes of the Write calls (cyclic)
-	N     int    `json:"n,omitempty"`     // burst: number of keys
+	K      string `json:"k"`                // begin set del get getr keys commit rollback gc reopen burst delburst
+	H      int    `json:"h,omitempty"`      // actor selector: 0 = autocommit, else the (H-1 mod n)-th open transaction
+	Last   bool   `json:"last,omitempty"`   // address the most recently begun transaction that is still open
+	Late   bool   `json:"late,omitempty"`   // C13: address an ended transaction instead of an open one
+	Recent bool   `json:"recent,omitempty"` // with Late: the transaction that ended most recently
+	Ghost  bool   `json:"ghost,omitempty"`  // C13: address a transaction id that never existed
+	Key    int    `json:"key,omitempty"`    // key selector (mod len(keys)); -1 = the empty key; -2 = a never-written key
+	Len    int    `json:"len,omitempty"`    // content length of a write
+	Lvl    int    `json:"lvl,omitempty"`    // begin: 0..3 = level, 4 = Begin() without argument (default level)
+	Via    string `json:"via,omitempty"`    // write path: "" = Set, "reader" = SetReader, "create" = Create+Write*+Close
+	Split  []int  `json:"split,omitempty"`  // reader: max bytes per Read; create: sizes of the Write calls (cyclic)
+	N      int    `json:"n,omitempty"`      // burst: number of keys
 }
 
 // Case is a generated test case for E1.
@@ -356,6 +357,15 @@ func (w *World) pickActor(op Op) (id int, ok bool) {
 		}
 		if len(ended) == 0 {
 			return 0, false
+		}
+		if op.Recent {
+			best := ended[0]
+			for _, id := range ended {
+				if w.M.Tx(id).EndClk > w.M.Tx(best).EndClk {
+					best = id
+				}
+			}
+			return best, true
 		}
 		h := op.H
 		if h < 0 {
